@@ -36,6 +36,69 @@ pub enum Content {
     Periodic(Vec<u8>, usize), // pattern, total size
 }
 
+/// A reader over an endless periodic stream that delivers full buffers, except that it makes
+/// read boundaries fall exactly on the given marks, and reports a hard error (or EOF) at `end`.
+/// Consecutive reads of the same size are logged as ONE event (`okp_run`): lossless, and by
+/// chunking independence (MCGenChunk, C03) equivalent to one delivery of count * n bytes.
+pub struct BigReader {
+    pub pat: Vec<u8>,
+    pub pos: u64,
+    pub marks: Vec<u64>,
+    pub end: u64,
+    pub end_with_error: Option<ErrorKind>,
+    pub log: Vec<String>,
+    run: Option<(u64, u64, u64, usize)>, // (start pos, n each, count, buflen)
+    block: Vec<u8>,
+}
+
+impl BigReader {
+    pub fn new(pat: Vec<u8>, marks: Vec<u64>, end: u64, end_with_error: Option<ErrorKind>) -> BigReader {
+        let p = pat.len();
+        let block: Vec<u8> = (0..(MIB + p)).map(|i| pat[i % p]).collect();
+        BigReader { pat, pos: 0, marks, end, end_with_error, log: Vec::new(), run: None, block }
+    }
+    fn flush_run(&mut self) {
+        if let Some((start, n, count, buflen)) = self.run.take() {
+            self.log.push(format!(
+                "{{\"e\":\"read\",\"buflen\":{},\"ret\":{{\"kind\":\"okp_run\",\"n\":{},\"count\":{},\"pat\":{},\"off\":[{},{}]}}}}",
+                buflen, n, count, bytes_json(&self.pat), (start % (1u64 << 32)) >> 16, start & 0xffff
+            ));
+        }
+    }
+}
+
+impl Read for BigReader {
+    fn read(&mut self, buf: &mut [u8]) -> std::io::Result<usize> {
+        if self.pos >= self.end {
+            self.flush_run();
+            return match self.end_with_error {
+                Some(kind) => {
+                    self.log.push(format!(
+                        "{{\"e\":\"read\",\"buflen\":{},\"ret\":{{\"kind\":\"err\",\"err\":\"{:?}\"}}}}", buf.len(), kind));
+                    Err(std::io::Error::new(kind, "scripted error"))
+                }
+                None => {
+                    self.log.push(format!("{{\"e\":\"read\",\"buflen\":{},\"ret\":{{\"kind\":\"eof\"}}}}", buf.len()));
+                    Ok(0)
+                }
+            };
+        }
+        let next_mark = self.marks.iter().copied().filter(|&m| m > self.pos).min().unwrap_or(u64::MAX).min(self.end);
+        let n = (buf.len() as u64).min(next_mark - self.pos) as usize;
+        let start = (self.pos % self.pat.len() as u64) as usize;
+        buf[..n].copy_from_slice(&self.block[start..start + n]);
+        match &mut self.run {
+            Some((_, rn, count, bl)) if *rn == n as u64 && *bl == buf.len() => *count += 1,
+            _ => {
+                self.flush_run();
+                self.run = Some((self.pos, n as u64, 1, buf.len()));
+            }
+        }
+        self.pos += n as u64;
+        Ok(n)
+    }
+}
+
 impl Content {
     fn len(&self) -> usize {
         match self {
@@ -322,6 +385,34 @@ fn files(out: &mut Out, rng: &mut Rng, thorough: bool, only: Option<&str>) {
         out.emit(Ev::new("file_err").str("v", v.name()).str("why", "missing").raw("r", &outcome_json(&o)).meas(o.a, &o.p));
         let o = v.hash_file(std::path::Path::new(&dir));
         out.emit(Ev::new("file_err").str("v", v.name()).str("why", "directory").raw("r", &outcome_json(&o)).meas(o.a, &o.p));
+    }
+}
+
+/// C12 / C09 / C11 at the far end: more than 4 GiB through hash_stream, read boundaries exactly
+/// on MAX and on 2^32, then a hard error (which must be returned) or EOF (TooLargeInput).
+pub fn run_c12big(out: &mut Out, rng: &mut Rng, only: Option<&str>, all: bool) {
+    const MAX: u64 = 4_224_281_216;
+    for v in VARIANTS.iter() {
+        if only.map_or(false, |o| o != v.name()) || v.ck_len() != 1 {
+            continue;
+        }
+        let mut cases: Vec<(u64, Option<ErrorKind>)> = vec![((1u64 << 32) + 3 * MIB as u64 + 17, Some(ErrorKind::Other))];
+        if all {
+            cases.push((MAX + 1, None));
+            cases.push((MAX, None));
+        }
+        for (end, err) in cases {
+            let mut rd = BigReader::new(rng.bytes(61), vec![MAX, 1u64 << 32], end, err);
+            out.emit(Ev::new("stream_begin").str("v", v.name()).meas(0, ""));
+            let o = v.hash_stream(&mut rd);
+            for line in rd.log.iter() {
+                out.emit_raw(line);
+            }
+            out.emit(
+                Ev::new("stream_end").raw("r", &outcome_json(&o)).raw("hb", "{\"kind\":\"None\"}")
+                    .num("delivered", (rd.pos >> 20) as i64).str("panic", &o.p).meas(o.a, ""),
+            );
+        }
     }
 }
 
